@@ -21,6 +21,7 @@ func init() {
 // Reader.Read plus the value of Size
 func runHdr(d int, sz []byte, cks []int) string {
 	var v, rd, szs []string
+	sizeFirst := "ok"
 	for _, c := range cks {
 		in := binary.LittleEndian.AppendUint32(nil, 0x184D2204)
 		in = append(in, byte(d), byte(d>>8))
@@ -34,13 +35,28 @@ func runHdr(d int, sz []byte, cks []int) string {
 		_, e := zr.Read(nil)
 		rd = append(rd, errClass(e))
 		szs = append(szs, strconv.Itoa(zr.Size()))
+		// the same header through a Reader whose Size is asked BEFORE the first Read: asking must not
+		// change what is accepted nor what is reported afterwards
+		func() {
+			defer func() {
+				if p := recover(); p != nil {
+					sizeFirst = fmt.Sprintf("fail:panic-after-Size-before-Read(checksum-byte-%d)", c)
+				}
+			}()
+			zr2 := lz4.NewReader(bytes.NewReader(in))
+			s0 := zr2.Size()
+			_, e2 := zr2.Read(nil)
+			if errClass(e2) != errClass(e) || zr2.Size() != zr.Size() || (e != nil && s0 != 0) {
+				sizeFirst = fmt.Sprintf("fail:Size-before-Read-changes-the-verdict(checksum-byte-%d:%s-vs-%s,size-%d-vs-%d,early-size-%d)", c, errClass(e2), errClass(e), zr2.Size(), zr.Size(), s0)
+			}
+		}()
 	}
 	// acc: accepted or not, per checksum byte (compared with the frame specification's own verdict)
 	acc := make([]string, len(v))
 	for i := range v {
 		acc[i] = v[i][:1]
 	}
-	return fmt.Sprintf("acc=%s vfh=%s rd=%s size=%s", strings.Join(acc, ","), strings.Join(v, ","), strings.Join(rd, ","), strings.Join(szs, ","))
+	return fmt.Sprintf("acc=%s vfh=%s rd=%s size=%s oracle_size_first=%s", strings.Join(acc, ","), strings.Join(v, ","), strings.Join(rd, ","), strings.Join(szs, ","), sizeFirst)
 }
 
 func hdrCks(d int, sz []byte, all bool, r *rng) []int {
